@@ -247,9 +247,10 @@ Definition def_de (d : typedef) (args : list rty) (j : json) : dres :=
                   | Some (i, v) =>
                       match v_shape v, assoc c es with
                       | SUnit, _ => DOk (VVariant i [])
-                      | _, Some x => dbind (shape_de true args (variant_ra raf v) (v_shape v) x) (fun cv => DOk (VVariant i (fields_of cv)))
+                      | _, Some x =>    (* the content is read the way an untagged variant is: no sequence for a struct variant *)
+                          dbind (shape_de false args (variant_ra raf v) (v_shape v) x) (fun cv => DOk (VVariant i (fields_of cv)))
                       | _, None =>      (* missing content: read as unit (accepted by Option and unit payloads) *)
-                          dbind (shape_de true args (variant_ra raf v) (v_shape v) JNull) (fun cv => DOk (VVariant i (fields_of cv)))
+                          dbind (shape_de false args (variant_ra raf v) (v_shape v) JNull) (fun cv => DOk (VVariant i (fields_of cv)))
                       end
                   | None => DReject
                   end
